@@ -57,10 +57,12 @@ def conclude(ctx, broken, **kw):
     return ctx.finish(**kw)
 
 
-def corr(ctx, prop, n, compare, seed_offset=0, extra=(), label=None):
+def corr(ctx, prop, n, compare, seed_offset=0, extra=(), label=None, transform=None):
     """generate n cases, run impl and model, compare(case, impl, model) -> None | (sig, desc)"""
     label = label or prop
     lines = gen_cases(prop, n, ctx.seed * 1000 + seed_offset, extra)
+    if transform:
+        lines = [transform(l) for l in lines]
     t0 = time.time()
     impl = run_impl(lines)
     t1 = time.time()
@@ -194,6 +196,30 @@ def cmp_c01(case, i, m):
     return None
 
 
+FRONTEND_THEOREMS = ["Acv.FrontEnd.toRule_negate", "Acv.FrontEnd.toRule_negate_parsed", "Acv.FrontEnd.sat_iff_holds", "Acv.FrontEnd.frontEnd_sound",
+                     "Acv.FrontEnd.tree_reported_iff", "Acv.FrontEnd.tree_reported_iff_cardinality", "Acv.FrontEnd.frontEnd_classical",
+                     "Acv.FrontEnd.frontEnd_key_order", "Acv.FrontEnd.verdicts_key_order", "Acv.FrontEnd.sat_and_iff", "Acv.FrontEnd.sat_or_iff",
+                     "Acv.FrontEnd.sat_if_then_iff", "Acv.FrontEnd.sat_if_then_else_iff", "Acv.FrontEnd.sat_nested_iff", "Acv.FrontEnd.sat_atLeast_iff",
+                     "Acv.FrontEnd.sat_atMost_iff", "Acv.FrontEnd.sat_exactly_iff", "Acv.FrontEnd.sat_not"]
+
+
+def cmp_c01y(case, i, m):
+    """the whole front-end model run on the YAML TREE of the profile text (parser model -> path PEG model -> IRI expander model ->
+    rule tables -> classical semantics / translator model) against the real verdicts"""
+    if "error" in m:
+        return ("~model-error", "front-end model driver rejected the case: " + m["error"])
+    if m.get("outcome") == "unsupported":
+        return False
+    r = cmp_c01(case, i, m)
+    if r and r is not True and not r[0].startswith("~") and case["stream"] in ("tt", "graphcount", "scopes"):
+        return r
+    if r and r is not True:
+        return ("~front-end", "front-end model on the YAML tree: " + r[1])
+    if "satReported" in m and m["satReported"] != m["reported"]:
+        return ("~front-end-self", "sat on the parsed tree and holds on the converted rule disagree (sat_iff_holds contradicted?)")
+    return None
+
+
 def check_C01(ctx):
     broken = []
     try:
@@ -201,6 +227,7 @@ def check_C01(ctx):
     except Broken as b:
         return conclude(ctx, [b])
     broken += prove(ctx, "Acv.Props.C01Atoms", C01_THEOREMS + C01_ATOM_THEOREMS)
+    broken += prove(ctx, "Acv.Props.FrontEnd", FRONTEND_THEOREMS)
     q = ctx.quick()
     plan = [("tt", 260 if q else 6000), ("graphcount", 120 if q else 3000), ("atoms", 120 if q else 3000), ("graph", 100 if q else 3000), ("scopes", 120 if q else 3000)]
     try:
@@ -208,11 +235,17 @@ def check_C01(ctx):
             before = len(ctx.violations)
             corr(ctx, "c01", n, cmp_c01, seed_offset=k, extra=(stream,), label="c01/" + stream)
             ctx.oblige(f"correspondence:c01/{stream}", len(ctx.violations) == before)
+        # the same kinds of cases once more, this time the MODEL side starts from the YAML tree of the profile text
+        for k, (stream, n) in enumerate(plan):
+            before, nb = len(ctx.violations), len(ctx.breaks)
+            corr(ctx, "c01", max(40, n // 3), cmp_c01y, seed_offset=50 + k, extra=(stream,), label="c01y/" + stream,
+                 transform=lambda l: l.replace('"op":"c01"', '"op":"c01y"', 1))
+            ctx.oblige(f"correspondence:front-end model on the profile's YAML tree, {stream}", len(ctx.violations) == before and len(ctx.breaks) == nb)
     except Broken as b:
         broken.append(b)
     ctx.coverage["rule"] = ("tt: random formulas (and/or/not/if/then/else, depth<=6, width<=4) over k<=5 classical atoms, graph = one target node per truth assignment (whole truth table per validation); "
                             "graphcount: random graphs, cardinality atoms over random paths, nested/atLeast/atMost/exactly; atoms: every atom kind alone and negated; graph: all atom kinds mixed; scopes: 2-3 nested/quantified constraints over different paths, each inside one of seven connective contexts, combined by or/and/not-and/not-or/if-then(-else) in shuffled operand order. "
-                            "non-trivial = at least one node reported")
+                            "non-trivial = at least one node reported. Each stream is run a second time with the model side starting from the YAML node tree of the profile TEXT (front-end model: parser, path grammar, IRI expansion, rule tables)")
     ctx.assumptions += ["per-atom Rego snippets are modelled by Atom.fails (tied by the atoms stream)",
                         "per-value atoms (in, pattern, lengths, numeric, datatype, property comparisons) are classical only on single-valued properties; on other graphs the check compares with the literal translator model (stream graph)"]
     return conclude(ctx, broken, trusted=TRUST_COMMON)
